@@ -239,6 +239,12 @@ class FunctionDecoratorManager(DecoratorManager):
         def on_func_var_deleted():
             if self.status is DecoratorManagerStatus.RUNNING:
                 self.hass.async_create_task(self.stop())
+            elif self.status is DecoratorManagerStatus.VALIDATED:
+                # the function is gone (eg, redefined while its file loads) before the
+                # context was started: it must not be started later
+                self.eval_func.global_ctx.dms_delay_start.discard(self)
+                self.eval_func.global_ctx.dms.discard(self)
+                self.update_status(DecoratorManagerStatus.STOPPED)
 
         weakref.finalize(eval_func_var, on_func_var_deleted)
 
